@@ -424,6 +424,11 @@ def run_concurrent(init, nthreads, prefix, cross_fs=False):
     env = Env()
     try:
         cur = setup_initial(env, init)
+        # the Templates of the set-up (and of earlier executions) are dead by now, deterministically: what a
+        # weak registry of the library still knows must not depend on when the collector last ran
+        import gc
+
+        gc.collect()
         env.sched = s
         res = {}
 
